@@ -484,3 +484,84 @@ class InputTrace:
             for line in open(os.path.join(self.dir, f)):
                 ev.append(_json.loads(line))
         return ev
+
+
+# ---------------------------------------------------------------------------------------------
+# C06: effective options received by the three stage functions, in every process
+
+import sys as _sys
+
+
+def _jsonable(v):
+    if isinstance(v, dict):
+        return {str(k): _jsonable(x) for k, x in v.items()}
+    if isinstance(v, (list, tuple)):
+        return [_jsonable(x) for x in v]
+    if isinstance(v, np.ndarray):
+        return '<array>'
+    if isinstance(v, (np.integer,)):
+        return int(v)
+    if isinstance(v, (np.floating,)):
+        return float(v)
+    if v is None or isinstance(v, (bool, int, float, str)):
+        return v
+    return repr(v)
+
+
+def _opt_log(stage, args, kw, depth=2):
+    if not _TRACE_DIR:
+        return
+    try:
+        b = inspect.signature(_ORIG[stage]).bind(*args, **kw)
+        b.apply_defaults()
+        eff = {k: _jsonable(v) for k, v in b.arguments.items() if k != 'X'}
+    except TypeError as e:
+        eff = {'bind_error': str(e)}
+    caller = _sys._getframe(depth).f_code.co_name
+    with open(os.path.join(_TRACE_DIR, 'opt-%d.ndjson' % os.getpid()), 'a') as f:
+        f.write(_json.dumps({'stage': stage, 'caller': caller, 'pid': os.getpid(), 'eff': eff}) + '\n')
+
+
+def _opt_gni(*a, **k):
+    _opt_log('get_next_imf', a, k)
+    return _ORIG['get_next_imf'](*a, **k)
+
+
+def _opt_ie(*a, **k):
+    _opt_log('interp_envelope', a, k)
+    return _ORIG['interp_envelope'](*a, **k)
+
+
+def _opt_gpe(*a, **k):
+    _opt_log('get_padded_extrema', a, k)
+    return _ORIG['get_padded_extrema'](*a, **k)
+
+
+class OptionTrace:
+    def __init__(self, emd, trace_dir):
+        self.sift = emd.sift
+        self.dir = trace_dir
+
+    def __enter__(self):
+        global _TRACE_DIR
+        os.makedirs(self.dir, exist_ok=True)
+        for f in os.listdir(self.dir):
+            os.unlink(os.path.join(self.dir, f))
+        _TRACE_DIR = self.dir
+        for n, w in (('get_next_imf', _opt_gni), ('interp_envelope', _opt_ie), ('get_padded_extrema', _opt_gpe)):
+            _ORIG[n] = getattr(self.sift, n)
+            setattr(self.sift, n, w)
+        return self
+
+    def __exit__(self, *a):
+        global _TRACE_DIR
+        for n in ('get_next_imf', 'interp_envelope', 'get_padded_extrema'):
+            setattr(self.sift, n, _ORIG[n])
+        _TRACE_DIR = None
+
+    def read(self):
+        ev = []
+        for f in sorted(os.listdir(self.dir)):
+            for line in open(os.path.join(self.dir, f)):
+                ev.append(_json.loads(line))
+        return ev
